@@ -220,7 +220,8 @@ type raceAgg struct {
 	stacks   map[string]struct{}
 	ctors    map[string]struct{}
 	first    Case
-	mutators bool // the workload had SetLogSource/SetLoggerSource/Append callers next to Log/LogError
+	inner    map[string]int // innermost library frame pairs seen under this entry pair
+	mutators bool           // EVERY report came from a workload with SetLogSource/SetLoggerSource/Append callers next to Log/LogError
 }
 
 func main() {
@@ -251,7 +252,6 @@ func main() {
 		"held on the schedules that occurred in these runs; the race detector only sees races on executed paths")
 
 	var cases []Case
-	replayRuns := 1
 	if r.Replay != "" {
 		var w struct {
 			Case *Case `json:"case"`
@@ -265,11 +265,9 @@ func main() {
 			c.Dir = filepath.Join(scratch, fmt.Sprintf("replay%02d", i))
 			cases = append(cases, c)
 		}
-		replayRuns = 6
 	} else {
 		cases = buildCases(r, scratch)
 	}
-	_ = replayRuns
 
 	canary := runCanary(self, scratch)
 	r.Obs("race_canary_detected", int64(canary))
@@ -281,6 +279,7 @@ func main() {
 	aggs := map[string]*raceAgg{}
 	ext := map[string]int{}
 	var harnessErrs []string
+	var functional []Finding
 	workers := 8
 	if v := os.Getenv("C13_WORKERS"); v != "" {
 		fmt.Sscan(v, &workers)
@@ -303,11 +302,15 @@ func main() {
 			switch {
 			case rr.Lib:
 				r.Obs("race_reports_in_library", 1)
-				key := rr.Frames + " # " + rr.Entry + " # " + fmt.Sprint(c.SetSrc || len(c.Appends) > 0)
+				key := rr.Entry // de-duplicated by the pair of outermost library frames
 				a := aggs[key]
 				if a == nil {
-					a = &raceAgg{rr: rr, stacks: map[string]struct{}{}, ctors: map[string]struct{}{}, first: c, mutators: c.SetSrc || len(c.Appends) > 0}
+					a = &raceAgg{rr: rr, stacks: map[string]struct{}{}, ctors: map[string]struct{}{}, inner: map[string]int{}, first: c, mutators: true}
 					aggs[key] = a
+				}
+				a.inner[rr.Frames]++
+				if !(c.SetSrc || len(c.Appends) > 0) {
+					a.mutators = false
 				}
 				a.count++
 				a.stacks[rr.StackKey] = struct{}{}
@@ -414,10 +417,11 @@ func main() {
 			r.Sample(map[string]any{"case": c, "produced": res.Produced, "verified": res.Verified, "sink_lines": res.SinkLines,
 				"max_concurrent_producers": res.MaxActive, "first_sink_lines": res.SampleLines, "race_reports": len(o.races)})
 		}
-		for _, f := range res.Findings {
-			if r.Violation(vrun.Sig(f.Sig), f.What, f.Witness) {
-				keep = keep || os.Getenv("C13_KEEP_FAILED") != ""
-			}
+		if len(res.Findings) > 0 {
+			mu.Lock()
+			functional = append(functional, res.Findings...)
+			mu.Unlock()
+			keep = keep || os.Getenv("C13_KEEP_FAILED") != ""
 		}
 	})
 
@@ -435,10 +439,30 @@ func main() {
 			ctors = append(ctors, c)
 		}
 		sort.Strings(ctors)
-		r.Violation(vrun.Sig{"effect": "data-race", "frames": a.rr.Frames, "entry": a.rr.Entry, "entry_types": a.rr.EntryTypes, "with_setters": fmt.Sprint(a.mutators)},
-			fmt.Sprintf("data race between %s (entered through %s): %d report(s), %d distinct stack pair(s), configurations %v",
-				a.rr.Frames, a.rr.Entry, a.count, len(a.stacks), ctors),
-			map[string]any{"case": a.first, "reports": a.count, "distinct_stack_pairs": len(a.stacks), "configurations": ctors, "first_report": a.rr.Text})
+		var inner []string
+		for f := range a.inner {
+			inner = append(inner, f)
+		}
+		sort.Strings(inner)
+		r.Violation(vrun.Sig{"effect": "data-race", "entry": a.rr.Entry, "entry_types": a.rr.EntryTypes, "frames": inner[0], "with_setters": fmt.Sprint(a.mutators)},
+			fmt.Sprintf("data race between goroutines inside %s (innermost library frames %v): %d report(s), %d distinct stack pair(s), configurations %v",
+				a.rr.Entry, inner, a.count, len(a.stacks), ctors),
+			map[string]any{"case": a.first, "reports": a.count, "distinct_stack_pairs": len(a.stacks), "configurations": ctors,
+				"innermost_library_frames": a.inner, "first_report": a.rr.Text})
+	}
+	// functional findings of the children: at most two witnesses per signature (the rest is counted)
+	sort.SliceStable(functional, func(i, j int) bool {
+		return vrun.Sig(functional[i].Sig).String() < vrun.Sig(functional[j].Sig).String()
+	})
+	seen := map[string]int{}
+	for _, f := range functional {
+		k := vrun.Sig(f.Sig).String()
+		seen[k]++
+		if seen[k] > 2 {
+			r.Obs("further_occurrences_of_reported_signatures", 1)
+			continue
+		}
+		r.Violation(vrun.Sig(f.Sig), f.What, f.Witness)
 	}
 	for k, n := range ext {
 		r.ObsSet("third_party_only_races", fmt.Sprintf("%s x%d", k, n))
